@@ -349,6 +349,25 @@ class LineTracer:
             sys.settrace(None)
 
 
+def interrupted_first(func: Callable[[], Any], numpoly_dir: str, u: int, stats: Optional[Dict[str, int]] = None, span: int = 150) -> bool:
+    """History for 'abort and retry': the request is made once and interrupted between two lines of numpoly
+    code (position 1 + u % span), whatever it raises is swallowed; the caller then makes the request again and
+    judges that one.  True iff the interrupt fired."""
+    tracer = LineTracer(numpoly_dir, k=1 + u % span)
+    fired = False
+    try:
+        tracer.run(func)
+    except core.SimInterrupt:
+        fired = True
+    except core.HarnessError:
+        raise
+    except Exception:  # noqa: BLE001
+        pass
+    if stats is not None and fired:
+        stats["fault:interrupted_then_retried.fired"] = stats.get("fault:interrupted_then_retried.fired", 0) + 1
+    return fired
+
+
 def scan_method_sorts(numpoly_dir: str) -> List[str]:
     """Static probe: method-form sorts (``arr.argsort()``, ``arr.sort()``) cannot
     be intercepted by the module-global numpy proxy; list them so evidence can say
